@@ -336,8 +336,9 @@ class C14(Prop):
             sid = 4 * i
             sids.append(sid)
             rq = rng.choice(REQUESTS + CONNECTS) if rng.random() < 0.25 else rng.choice(REQUESTS)
-            if not server and rng.random() < 0.25:
-                # `SendRequest::clone`: the clone is task `snd<k>`; requests go through any live handle
+            if not server and rng.random() < 0.25 and "bc=" not in cfgs:
+                # `SendRequest::clone`: the clone is task `snd<k>`; requests go through any live handle (not under a bidi-stream
+                # credit limit: which of two handles waiting for the same credit opens the stream is the executor's choice)
                 ops.append("%s.cl" % rng.choice(senders))
                 senders.append("snd%d" % (len(senders) + 1))
             if server:
